@@ -16,6 +16,9 @@ open PM.Dom
 open PM.FromDom
 open PM.FromDom PM.DomWalk
 open PM.DomWalk
+open PM PM.RoundTrip PM.FromDom
+open PM PM.RoundTrip
+open PM.RoundTrip PM.FromDom
 open PM.C19
 open PM.Gen PM.Family PM.FromDom
 
